@@ -4,16 +4,18 @@ import re
 from fractions import Fraction
 from tools import common as C, wire, oracle as O
 
-LEAN_MODULES = ["SCP.C02"]
+LEAN_MODULES = ["SCP.C02", "SCP.Lex"]
 THEOREMS = ["SCP.C02." + t for t in "parse_eval post_stable line_eval_partial adjacent_add neg_value_rat pos_value_rat div_value_rat".split()] + \
-    ["SC.Spec.Sum.parseExpr_toks", "SC.Spec.Sum.exec_ast"]
+    ["SC.Spec.Sum.parseExpr_toks", "SC.Spec.Sum.exec_ast", "SCP.Lex.lex_render", "SCP.Lex.lex_spacing_irrelevant", "SCP.Lex.tree_line_eval"]
 RULE = ("random stratified expression trees (depth <= 12, literals: integers, fractions, attached signs, k/M/G/T/P/Z/Y suffixes, "
         "detached sign prefixes on literals and parentheses) rendered with random spacing (0-3 blanks per gap), adjacency sums, "
         "the same as right-hand side of an assignment; thorough: additionally ALL trees with <= 4 operators over a 3-literal pool x "
         "3 spacings; excluded (by the property): token runs `a / b / c` (dates); oracle = the tree evaluated with IEEE doubles in tree "
         "order (bit-exact) and with exact rationals (tolerance); non-trivial = >= 1 operator; distinct = distinct line texts")
-ASSUMPTIONS = ["string level (every spacing lexes to the token sequence `toks`) is decided by enumeration + correspondence, not by a theorem "
-               "(the regex layer is outside the model); the case 'sign at the start position of missing_token_adder' is `_partial`",
+ASSUMPTIONS = ["string level: for the arithmetic sub-language (digits, separators, blanks, operator characters) `SCP.Lex.lex_render` PROVES that every "
+               "spacing of a line lexes to its pieces' tokens under the scanner model `codeLex`, which is compared token for token with the "
+               "implementation's own lexer on generated and hostile lines of that alphabet under 4 separator conventions; suffix letters and the "
+               "rest of the regex layer stay outside the model; the case 'sign at the start position of missing_token_adder' is `_partial`",
                "operands are literals or parenthesised sums; `(a) (b)` adjacency is not claimed"]
 TRUSTED = ["regex crate / lexer glue for number and operator tokens (exercised by every generated line)"]
 
@@ -285,6 +287,48 @@ def run(ctx, model_ok):
         co = wire.Corr(ctx, compare=("kind", "value", "raw"))
         co.run([{"lang": "en", "text": c["text"]} for c in cases[:ctx.n(2500, 30000)]])
         ctx.dist.update({"corr:" + k: v for k, v in co.stats.items()})
+        lexer_tie(ctx, [c["text"] for c in cases if c["kind"] in ("expr", "enum", "curated")])
+
+
+ALPHA_A = list("0123456789") * 3 + list("  +-*/()") * 2 + [",", ".", ",", "."]
+CONVS = [(",", "."), (".", ","), (".", ""), (",", "")]
+
+
+def lexer_tie(ctx, texts):
+    """the scanner model `codeLex` (about which SCP.Lex proves spacing irrelevance) against the implementation's lexer, token for
+    token, on the arithmetic lines of this run and on hostile strings over the same alphabet, under four separator conventions"""
+    rng = ctx.rng
+    lines = [t for t in texts if not re.search(r"[A-Za-z=]", t)][:ctx.n(1200, 20000)]
+    for _ in range(ctx.n(1500, 30000)):
+        lines.append("".join(rng.choice(ALPHA_A) for _ in range(rng.randint(1, 24))))
+    ops, req, idx = [], [], []
+    for (dec, thou) in CONVS:
+        ops.append({"op": "cfg", "dec": dec, "thou": thou})
+        for t in lines:
+            t2 = t if (dec, thou) == (",", ".") else t.replace(",", "\x00").replace(".", thou or "").replace("\x00", dec) if rng.random() < 0.5 else t
+            ops.append({"op": "lex", "lang": "en", "text": t2})
+            req.append(f"codelex\t{wire.hx(dec)}\t{wire.hx(thou)}\t{wire.hx(t2)}")
+            idx.append((dec, thou, t2))
+    ops.append({"op": "cfg", "dec": ",", "thou": "."})
+    res = [r for r, o in zip(C.run_impl(ops), ops) if o["op"] == "lex"]
+    ans = C.run_model(req)
+    n_ok = n_none = 0
+    for (dec, thou, t), r, a in zip(idx, res, ans):
+        if a == "none":
+            n_none += 1
+            continue
+        if "toks" not in r:
+            ctx.disagree({"observable": "lexer", "text": t, "dec": dec, "thou": thou, "impl": r, "model": a})
+            continue
+        impl = " ".join(wire.enc_tok(x["tok"]) or "?" for x in r["toks"] if x["tok"] is not None)
+        model = a.split("\t", 1)[1] if "\t" in a else ""
+        if impl != model:
+            ctx.disagree({"observable": "lexer tokens (model codeLex vs implementation)", "text": t, "dec": dec, "thou": thou, "impl": impl, "model": model})
+        else:
+            n_ok += 1
+            ctx.traces_validated += 1
+    ctx.dist["lexer-tie:agree"] = n_ok
+    ctx.dist["lexer-tie:outside-model"] = n_none
 
 
 def replay(ctx, data, model_ok):
